@@ -1342,7 +1342,11 @@ class SafeGen:
     overflow-capable operator below a self-determined boundary, every operand exact in its width, signed
     operands only as direct operands of comparisons / top-level operators): the domain of the independent
     oracle.  A mismatch between the real Evaluator and the golden reading of the real text on such an
-    expression is a genuine failing input."""
+    expression is a genuine failing input.
+    Since the repairs of the C01 printer/simulator findings the domain includes: signed constants (also the most
+    negative value of a width), comparisons with signed operands anywhere a 0/1 value may stand, slices of signed
+    signals (1-bit ones too) as unsigned atoms, `~b` as a Mux condition, and slices that cover a signed signal /
+    `~x` / `a - b` exactly."""
 
     def __init__(self, rng, usigs, ssigs, complex_slices=False):
         self.rng = rng
@@ -1353,17 +1357,28 @@ class SafeGen:
     def cslice(self, d):
         r = self.rng
         k = r.random()
-        if k < 0.45:
+        full = False
+        if k < 0.4:
             base = Cat(*[self.word(d - 1) for _ in range(r.randint(2, 3))])
-        elif k < 0.7:
+        elif k < 0.6:
             base = Replicate(self.word(d - 1), r.randint(2, 3))
-        else:
+        elif k < 0.75:
             base = self.word(d - 1)
+        else:
+            # nodes whose unbounded value can be negative: the slice (an unsigned view) must survive the lowering
+            full = r.random() < 0.6
+            k2 = r.random()
+            if k2 < 0.4 and self.s:
+                base = r.choice(self.s)
+            elif k2 < 0.7:
+                base = _Operator("~", [self.word(d - 1)])
+            else:
+                base = _Operator("-", [self.atom(), self.atom()])
         n = len(base)
         if n == 0 or n > 40:
             return self.atom()
-        lo = r.randrange(0, n)
-        e = _Slice(base, lo, r.randint(lo + 1, n))
+        lo = 0 if full else r.randrange(0, n)
+        e = _Slice(base, lo, n if full else r.randint(lo + 1, n))
         if r.random() < 0.3:
             n = len(e)
             lo = r.randrange(0, n)
@@ -1381,15 +1396,35 @@ class SafeGen:
             return _Slice(s, lo, r.randint(lo + 1, s.nbits))
         return Constant(r.randrange(0, 1 << r.randint(1, 4)))
 
+    def sconst(self):
+        """Signed constant, in range of its width (the most negative value included)."""
+        r = self.rng
+        w = r.randint(1, 5)
+        lo, hi = -(1 << (w - 1)), (1 << (w - 1)) - 1
+        return Constant(r.choice([lo, hi, -1, r.randint(lo, hi)]) if w > 1 else r.choice([-1, 0]), (w, True))
+
+    def sslice(self):
+        """Slice of a signed signal (also of a 1-bit one, also covering it exactly): an unsigned atom."""
+        r = self.rng
+        s = r.choice(self.s)
+        if r.random() < 0.4:
+            return _Slice(s, 0, s.nbits)
+        lo = r.randrange(0, s.nbits)
+        return _Slice(s, lo, r.randint(lo + 1, s.nbits))
+
     def anyatom(self):
-        if self.s and self.rng.random() < 0.4:
+        k = self.rng.random()
+        if self.s and k < 0.35:
             return self.rng.choice(self.s)
+        if self.s and k < 0.45:
+            return self.sslice()
+        if k < 0.55:
+            return self.sconst()
         return self.atom()
 
-    def boolean(self, d, signed_ok=False):
-        """0/1-valued.  Comparisons with a signed operand are reported signed by the printer (known defect:
-        the Verilog result is unsigned), which makes it promote — and widen — a neighbouring operand; such
-        comparisons are therefore only generated where the width does not matter (conditions, top level)."""
+    def boolean(self, d, signed_ok=True):
+        """0/1-valued.  Comparisons with signed operands may stand anywhere (the printer reports them unsigned,
+        as Verilog types them, since the fix of C01-comparison-reported-signed)."""
         r = self.rng
         k = r.random()
         if d <= 0 or k < 0.45:
@@ -1410,7 +1445,12 @@ class SafeGen:
         if k < 0.5:
             return _Operator(r.choice(BITW), [self.word(d - 1), self.word(d - 1)])
         if k < 0.62:
-            return Mux(self.boolean(d - 1, True), self.word(d - 1), self.word(d - 1))
+            c = self.boolean(d - 1, True)
+            if r.random() < 0.3:
+                c = _Operator("~", [c])       # unbounded value -1/-2: the simulator masks it to 1 bit
+            return Mux(c, self.word(d - 1), self.word(d - 1))
+        if self.s and k < 0.66:
+            return self.sslice()
         if k < 0.78:
             return Cat(*[self.word(d - 1) for _ in range(r.randint(1, 3))])
         if k < 0.84:
@@ -1425,7 +1465,11 @@ class SafeGen:
         if k < 0.25:
             return _Operator(r.choice(ARITH), [self.word(d - 1), self.word(d - 1)])
         if k < 0.4 and self.s:
-            return _Operator(r.choice(ARITH + BITW), [r.choice(self.s), self.anyatom()])
+            other = r.choice([self.anyatom, self.anyatom, self.sconst, lambda: self.boolean(d - 1), self.sslice])()
+            ops = [r.choice(self.s), other]
+            if r.random() < 0.5:
+                ops.reverse()
+            return _Operator(r.choice(ARITH + BITW), ops)
         if k < 0.5 and self.s:
             return Mux(self.boolean(d - 1, True), r.choice(self.s), self.anyatom())
         if k < 0.58:
